@@ -42,6 +42,9 @@ type treeCase struct {
 	MaxR  int             `json:"maxr"` // MaxRestarts of every node
 	Gates []int           `json:"gates"`
 	Steps [][]any         `json:"steps"`
+	// 1: every actor is spawned WithContext(ctx) for a ctx that is cancelled already (the application's own
+	// context is gone before the tree is taken down): stopping must not depend on it
+	Ctx int `json:"ctx"`
 }
 
 type treeXInfo struct {
@@ -136,6 +139,7 @@ type treeWorld struct {
 	evSeen  map[int]chan struct{} // closed when the ActorStoppedEvent of the node was seen
 	notes   []string
 	maxr    int
+	ctxMode int
 	incs    map[int]int           // node -> incarnations created so far
 	restart map[int]bool          // node -> the harness has just made it panic with budget left
 	upCh    map[int]chan struct{} // node -> closed when the incarnation after a restart has handled Started
@@ -209,7 +213,13 @@ func (w *treeWorld) producer(n *tnode) actor.Producer {
 }
 
 func (w *treeWorld) childOpts(id int) []actor.OptFunc {
-	return []actor.OptFunc{actor.WithID(strconv.Itoa(id)), actor.WithMaxRestarts(w.maxr), actor.WithRestartDelay(time.Microsecond)}
+	o := []actor.OptFunc{actor.WithID(strconv.Itoa(id)), actor.WithMaxRestarts(w.maxr), actor.WithRestartDelay(time.Microsecond)}
+	if w.ctxMode == 1 {
+		ctx, cancel := context.WithCancel(context.Background())
+		cancel()
+		o = append(o, actor.WithContext(ctx))
+	}
+	return o
 }
 
 func (w *treeWorld) registered(id int) bool {
@@ -402,7 +412,7 @@ func runTree(raw json.RawMessage) (any, error) {
 	w := &treeWorld{e: e, nodes: map[int]*tnode{}, byPath: map[string]int{}, gated: map[int]bool{},
 		reached: map[int]chan struct{}{}, release: map[int]chan struct{}{}, relOnce: map[int]*sync.Once{},
 		xe: map[int]bool{}, probeCh: map[int]chan struct{}{}, selfCh: map[int]chan tselfPill{},
-		crashOf: map[int]*thandle{}, evSeen: map[int]chan struct{}{}, maxr: c.MaxR, incs: map[int]int{},
+		crashOf: map[int]*thandle{}, evSeen: map[int]chan struct{}{}, maxr: c.MaxR, ctxMode: c.Ctx, incs: map[int]int{},
 		restart: map[int]bool{}, upCh: map[int]chan struct{}{}}
 	root, err := parseTree(c.Tree, nil, w)
 	if err != nil {
